@@ -91,6 +91,36 @@ func inscriptionScript(key *bec.PrivateKey, payload int) *bscript.Script {
 	return tx.Outputs[0].LockingScript
 }
 
+// nearInscription: a P2PKH inscription with one thing wrong (or unusual but still accepted): the envelope cut
+// short, ENDIF missing or replaced, the "ord" tag changed or pushed differently, an opcode where a push belongs,
+// a tail that is not an OP_RETURN section, the ord marker only inside the payload
+func nearInscription(rng *rand.Rand, key *bec.PrivateKey) *bscript.Script {
+	good := append(bscript.Script{}, *inscriptionScript(key, 3+rng.Intn(10))...)
+	switch rng.Intn(9) {
+	case 0:
+		good = good[:len(good)-1] // no ENDIF
+	case 1:
+		good[len(good)-1] = 0x67 // ELSE instead of ENDIF
+	case 2:
+		good = good[:25+rng.Intn(len(good)-25)] // cut somewhere in the envelope
+	case 3:
+		good[29] ^= 0x20 // "Ord"
+	case 4:
+		good = append(good, 0x51) // a tail that is not OP_RETURN
+	case 5:
+		good = append(good, 0x6a, 0x01, 0x07) // an OP_RETURN section: still an inscription
+	case 6:
+		good[27] = 0x4c // the tag push turned into PUSHDATA1 (length byte = 'o')
+	case 7:
+		pre := append(bscript.Script{}, good[:25]...)
+		good = append(append(pre, 0x75), good[25:]...) // an extra opcode between prefix and envelope
+	case 8:
+		pre := append(bscript.Script{}, good[:25]...)
+		good = append(pre, 0x07, 0x00, 0x63, 0x03, 0x6f, 0x72, 0x64, 0x51) // marker bytes only as data after the prefix
+	}
+	return &good
+}
+
 func addInput(tx *bt.Tx, tag byte, vout uint32, sats uint64, ps *bscript.Script) {
 	_ = tx.FromUTXOs(&bt.UTXO{TxID: bytes.Repeat([]byte{tag}, 32), Vout: vout, Satoshis: sats, LockingScript: ps})
 }
@@ -282,7 +312,9 @@ func randomTx(rng *rand.Rand, allowOdd bool) (*bt.Tx, *bec.PrivateKey) {
 	for i := 0; i < nin; i++ {
 		var ps *bscript.Script = own
 		if allowOdd {
-			switch rng.Intn(14) {
+			switch rng.Intn(16) {
+			case 14, 15:
+				ps = nearInscription(rng, key)
 			case 0:
 				ps = inscriptionScript(key, rng.Intn(40))
 			case 1:
